@@ -1,4 +1,5 @@
 import KoordVerif.Proofs.C07Base
+import KoordVerif.Proofs.C07Ext
 /-
 C07 — property theorems (DESIGN.md §4 C07).  All amounts are read value-wise: `drVal d minor k` is the
 amount of resource dimension `k` on device `minor`, a missing map entry or key counting as 0.
@@ -311,6 +312,264 @@ theorem commit_no_overcommit_partial (s : TState) (a : AllocReq) (ms : List Nat)
       · have : 0 < rlVal a.req k := by have := hreq k; omega
         omega
     · simp [hm]; exact hle
+
+/-! ## Extension: the `_partial` hypotheses discharged over histories -/
+
+
+/-! ### the ledgers stay maps over every history -/
+
+structure Inv3 (s : TState) : Prop where
+  tk : KeysNodup s.total
+  fk : KeysNodup s.free
+  uk : KeysNodup s.used
+
+theorem inv3_empty : Inv3 TState.empty := by
+  refine ⟨?_, ?_, ?_⟩ <;> simp [KeysNodup, TState.empty]
+
+theorem inv3_resetFree (s : TState) (ht : KeysNodup s.total) (hu : KeysNodup s.used) : Inv3 (resetFree s) := by
+  obtain ⟨h1, h2, h3⟩ := keysNodup_resetFree s ht hu
+  exact ⟨h1, h2, h3⟩
+
+theorem inv3_setPods (s : TState) (x : List (Nat × DevRes)) (h : Inv3 s) : Inv3 { s with pods := x } :=
+  ⟨h.tk, h.fk, h.uk⟩
+
+theorem opWF_of_B (op : Op) (h : opWFB op = true) : OpWF op := by
+  cases op with
+  | add p al => exact alNonneg_of al h
+  | remove p al => exact alNonneg_of al h
+  | refresh nt =>
+    simp only [opWFB, invOK, Bool.and_eq_true] at h
+    exact fun m k => drVal_nonneg_of nt h.1 m k
+
+theorem step_preserves_inv3 (s : TState) (op : Op) (h : Inv3 s) (hop : opWFB op = true) : Inv3 (step s op) := by
+  cases op with
+  | add p al =>
+    simp only [step, addT]
+    split
+    · exact h
+    · exact inv3_setPods _ _
+        (inv3_resetFree { s with used := usedAdd s.used al } h.tk (keysNodup_usedAdd al s.used h.uk))
+  | remove p al =>
+    simp only [step, removeT]
+    split
+    · exact h
+    · exact inv3_setPods _ _
+        (inv3_resetFree { s with used := usedSub s.used al } h.tk (keysNodup_usedSub al s.used h.uk))
+  | refresh nt =>
+    simp only [opWFB, invOK, Bool.and_eq_true] at hop
+    exact inv3_resetFree { s with total := nt } ((nodupB_iff _).mp hop.2) h.uk
+
+theorem run_inv3 (ops : List Op) : ∀ (s : TState), Inv3 s → histWFB ops = true → Inv3 (run s ops) := by
+  induction ops with
+  | nil => intro s h _; exact h
+  | cons op rest ih =>
+    intro s h hw
+    simp only [histWFB, List.all_cons, Bool.and_eq_true] at hw
+    simp only [run, List.foldl]
+    exact ih _ (step_preserves_inv3 s op h hw.1) hw.2
+
+theorem histWF_forall (ops : List Op) (hw : histWFB ops = true) : ∀ op ∈ ops, OpWF op := by
+  intro op hop
+  simp only [histWFB, List.all_eq_true] at hw
+  exact opWF_of_B op (hw op hop)
+
+/-- **keys_nodup**: after ANY history (weakly well-formed: amounts ≥ 0, inventories are maps) total, free and used
+    have one entry per minor. -/
+theorem keys_nodup (ops : List Op) (hw : histWFB ops = true) :
+    let s := run TState.empty ops
+    KeysNodup s.total ∧ KeysNodup s.free ∧ KeysNodup s.used := by
+  have h := run_inv3 ops _ inv3_empty hw
+  exact ⟨h.tk, h.fk, h.uk⟩
+
+/-! ### 2. used = Σ allocateSet over exact histories -/
+
+structure Inv2 (s : TState) : Prop where
+  pk : (s.pods.map (·.1)).Nodup
+  rpos : ∀ e ∈ s.pods, ∀ m k, 0 ≤ drVal e.2 m k
+  sum : ∀ m k, drVal s.used m k = podsSum s.pods m k
+
+theorem inv2_empty : Inv2 TState.empty := by
+  refine ⟨?_, ?_, ?_⟩
+  · simp [TState.empty]
+  · intro e he; simp [TState.empty] at he
+  · intro m k; simp [TState.empty, podsSum, drVal, drGetD, drGet, rlVal_nil]
+
+theorem step_preserves_inv2 (s : TState) (op : Op) (h : Inv2 s) (hop : opExact s op = true) : Inv2 (step s op) := by
+  cases op with
+  | add p al =>
+    simp only [step, addT]
+    cases hp : hasPod s p with
+    | true => simpa using h
+    | false =>
+      simp only [opExact, hp, Bool.false_or, alOK, Bool.and_eq_true] at hop
+      have hn : (al.map (·.1)).Nodup := (nodupB_iff _).mp hop.2
+      have hal := alNonneg_of al hop.1
+      have hget : podsGet s.pods p = none := by
+        have := hasPod_iff_get s p
+        rw [hp] at this
+        cases hg : podsGet s.pods p with
+        | none => rfl
+        | some r => rw [hg] at this; simp at this
+      simp only [Bool.false_eq_true, if_false]
+      refine ⟨?_, ?_, ?_⟩
+      · show ((s.pods ++ [(p, recOf al)]).map (·.1)).Nodup
+        rw [List.map_append]
+        apply nodup_append_of _ _ h.pk (by simp)
+        intro x hx
+        simp only [List.map_cons, List.map_nil, List.mem_singleton] at hx
+        subst hx
+        exact podsGet_none_not_mem s.pods x hget
+      · intro e he m k
+        have he' : e ∈ s.pods ++ [(p, recOf al)] := he
+        rcases List.mem_append.mp he' with h1 | h1
+        · exact h.rpos e h1 m k
+        · simp only [List.mem_singleton] at h1
+          subst h1
+          show 0 ≤ drVal (recOf al) m k
+          rw [recOf_val al hn]
+          exact alSum_nonneg al hal m k
+      · intro m k
+        show drVal (usedAdd s.used al) m k = podsSum (s.pods ++ [(p, recOf al)]) m k
+        rw [usedAdd_val, podsSum_append, h.sum m k]
+        simp [podsSum, recOf_val al hn]
+  | remove p al =>
+    simp only [step, removeT]
+    cases hg : podsGet s.pods p with
+    | none =>
+      have : hasPod s p = false := by rw [hasPod_iff_get, hg]; rfl
+      simpa [this] using h
+    | some r =>
+      have hp : hasPod s p = true := by rw [hasPod_iff_get, hg]; rfl
+      simp only [opExact, hg, alOK, Bool.and_eq_true, decide_eq_true_eq] at hop
+      obtain ⟨⟨hamt, hnd⟩, hrec⟩ := hop
+      have hn : (al.map (·.1)).Nodup := (nodupB_iff _).mp hnd
+      have hal := alNonneg_of al hamt
+      simp only [hp, Bool.not_true, Bool.false_eq_true, if_false]
+      refine ⟨?_, ?_, ?_⟩
+      · show ((s.pods.filter (fun e => e.1 != p)).map (·.1)).Nodup
+        exact List.Nodup.sublist (List.Sublist.map _ List.filter_sublist) h.pk
+      · intro e he m k
+        have he' : e ∈ s.pods.filter (fun e => e.1 != p) := he
+        exact h.rpos e (List.mem_filter.mp he').1 m k
+      · intro m k
+        show drVal (usedSub s.used al) m k = podsSum (s.pods.filter (fun e => e.1 != p)) m k
+        have hu : 0 ≤ drVal s.used m k := by rw [h.sum]; exact podsSum_nonneg s.pods h.rpos m k
+        rw [usedSub_val al hal _ _ _ hu, h.sum m k, podsSum_filter s.pods p r h.pk hg m k,
+          ← hrec, recOf_val al hn]
+        have := podsSum_nonneg (s.pods.filter (fun e => e.1 != p))
+          (fun e he => h.rpos e (List.mem_filter.mp he).1) m k
+        omega
+  | refresh nt =>
+    exact ⟨h.pk, h.rpos, h.sum⟩
+
+theorem run_inv2 (ops : List Op) : ∀ (s : TState), Inv2 s → histExact s ops = true → Inv2 (run s ops) := by
+  induction ops with
+  | nil => intro s h _; exact h
+  | cons op rest ih =>
+    intro s h hw
+    simp only [histExact, Bool.and_eq_true] at hw
+    simp only [run, List.foldl]
+    exact ih _ (step_preserves_inv2 s op h hw.1) hw.2
+
+/-- **used_eq_sum**: over every history in which each accepted add carries a well-formed allocation (amounts ≥ 0,
+    one entry per minor) and each accepted removal carries exactly what allocateSet recorded (`histExact`, a
+    decidable predicate the harness evaluates on every generated history), the in-use amount of every device and
+    dimension is the sum of the recorded allocations of the live pods, those pods are pairwise distinct and every
+    recorded amount is ≥ 0. -/
+theorem used_eq_sum (ops : List Op) (hx : histExact TState.empty ops = true) (m k : Nat) :
+    let s := run TState.empty ops
+    drVal s.used m k = podsSum s.pods m k ∧ (s.pods.map (·.1)).Nodup ∧ 0 ≤ podsSum s.pods m k := by
+  have h := run_inv2 ops _ inv2_empty hx
+  exact ⟨h.sum m k, h.pk, podsSum_nonneg _ h.rpos m k⟩
+
+/-- a live pod's recorded allocation never exceeds what is in use (so an exact release can never hit the clamp) -/
+theorem rec_le_used (ops : List Op) (hx : histExact TState.empty ops = true) (p : Nat) (r : DevRes)
+    (hg : podsGet (run TState.empty ops).pods p = some r) (m k : Nat) :
+    drVal r m k ≤ drVal (run TState.empty ops).used m k := by
+  have h := run_inv2 ops _ inv2_empty hx
+  rw [h.sum m k, podsSum_filter _ p r h.pk hg m k]
+  have := podsSum_nonneg ((run TState.empty ops).pods.filter (fun e => e.1 != p))
+    (fun e he => h.rpos e (List.mem_filter.mp he).1) m k
+  omega
+
+/-! ### 4. alloc_sound in full, 3. no_overcommit over all histories -/
+
+/-- **alloc_sound**: in the state reached by ANY weakly well-formed history a successful allocation returns between
+    desired and maxDesired DISTINCT minors, each permitted, each a non-zero device whose free entry satisfies
+    `LessThanOrEqual(request, free)`; on a device that exposes every requested key that is request ≤ free. -/
+theorem alloc_sound (ops : List Op) (hw : histWFB ops = true) (a : AllocReq) (ms : List Nat)
+    (h : allocate (run TState.empty ops) a = some ms) :
+    let s := run TState.empty ops
+    effDesired a ≤ ms.length ∧ ms.length ≤ effMax a ∧ ms.Nodup ∧
+    ∀ m ∈ ms, (a.required = [] ∨ m ∈ a.required) ∧
+      ∃ f, drGet s.free m = some f ∧ rlIsZero f = false ∧ rlLeq a.req f = true ∧
+        (Covered a.req f → ∀ k, 0 ≤ rlVal a.req k → rlVal a.req k ≤ rlVal f k) := by
+  intro s
+  have hk := (keys_nodup ops hw).2.1
+  have hinv := run_inv1 ops _ inv1_empty (histWF_forall ops hw)
+  obtain ⟨h1, h2, h3, h4⟩ := alloc_sound_partial s a ms hk h
+  refine ⟨h1, h2, h3, ?_⟩
+  intro m hm
+  obtain ⟨hr, f, hf, hz, hle, hv⟩ := h4 m hm
+  refine ⟨hr, f, hf, hz, hle, ?_⟩
+  intro hcov k hreq
+  have hfv : drVal s.free m k = rlVal f k := by simp [drVal, drGetD, hf]
+  have hf0 : 0 ≤ rlVal f k := by
+    rw [← hfv, hinv.free m k]; omega
+  exact hv hcov k hreq hf0
+
+/-- commit of the allocator's own result in a state with the invariants: `used ≤ total` is preserved wherever it
+    held, provided the CHOSEN devices expose every requested key (`chosenCovered`, checked by the harness on every
+    committed allocation of the main stream). -/
+theorem commit_no_overcommit (s : TState) (a : AllocReq) (ms : List Nat) (p : Nat)
+    (hinv : Inv1 s) (hk : KeysNodup s.free) (h : allocate s a = some ms)
+    (hreq : rlNonneg a.req = true) (hcov : chosenCovered s a ms = true)
+    (m k : Nat) (hle : drVal s.used m k ≤ drVal s.total m k) :
+    drVal (addT s p (allocList a ms)).used m k ≤ drVal (addT s p (allocList a ms)).total m k := by
+  obtain ⟨_, _, hnd, hall⟩ := alloc_sound_partial s a ms hk h
+  have hreq' := rlVal_nonneg_of a.req hreq
+  simp only [addT]
+  split
+  · exact hle
+  · show drVal (resetFree { s with used := usedAdd s.used (allocList a ms) }).used m k ≤
+      drVal (resetFree { s with used := usedAdd s.used (allocList a ms) }).total m k
+    rw [resetFree_total_val, resetFree_used]
+    show drVal (usedAdd s.used (allocList a ms)) m k ≤ drVal s.total m k
+    rw [usedAdd_val, alSum_allocList a ms hnd]
+    by_cases hm : m ∈ ms
+    · obtain ⟨_, f, hf, _, hleq, hval⟩ := hall m hm
+      have hc : Covered a.req f := by
+        simp only [chosenCovered, List.all_eq_true] at hcov
+        have := hcov m hm
+        rw [hf] at this
+        exact covered_of_B a.req f this
+      have hfv : drVal s.free m k = rlVal f k := by simp [drVal, drGetD, hf]
+      have hfe := hinv.free m k
+      have hu := hinv.upos m k
+      have ht := hinv.tpos m k
+      have hf0 : 0 ≤ rlVal f k := by rw [← hfv, hfe]; omega
+      have := hval hc k (hreq' k) hf0
+      simp only [hm, if_true]
+      by_cases hz : rlVal a.req k = 0
+      · omega
+      · have : 0 < rlVal a.req k := by have := hreq' k; omega
+        omega
+    · simp [hm]; exact hle
+
+/-- **no_overcommit**: after ANY weakly well-formed history, allocate-then-commit never makes `used` exceed `total`
+    on a device and dimension where it did not before. -/
+theorem no_overcommit (ops : List Op) (hw : histWFB ops = true) (a : AllocReq) (ms : List Nat) (p : Nat)
+    (h : allocate (run TState.empty ops) a = some ms)
+    (hreq : rlNonneg a.req = true) (hcov : chosenCovered (run TState.empty ops) a ms = true) (m k : Nat)
+    (hle : drVal (run TState.empty ops).used m k ≤ drVal (run TState.empty ops).total m k) :
+    let s' := run TState.empty (ops ++ [Op.add p (allocList a ms)])
+    drVal s'.used m k ≤ drVal s'.total m k := by
+  intro s'
+  have hs' : s' = addT (run TState.empty ops) p (allocList a ms) := by
+    simp [s', run, List.foldl_append, step]
+  rw [hs']
+  exact commit_no_overcommit _ a ms p (run_inv1 ops _ inv1_empty (histWF_forall ops hw))
+    (keys_nodup ops hw).2.1 h hreq hcov m k hle
 
 /-! ### the quirk behind `Covered` -/
 
